@@ -29,7 +29,7 @@ def run(chk):
         chk.sample(s)
     d.judge_trace(chk, "trace/Trace_Quote.tla", "trace/Trace_Quote.cfg", "c17d", div, show, count=False)
     chk.rule = ("Every string of <= 3 (quick) / 4 (thorough) units over {' \" \\\\ $ ` ( ) [ ] : , newline tab a e-acute U+2018 U+2019} is placed "
-                "between sentinels in the three descriptive slots (argument help, subcommand about, possible-value help) of a small command; "
+                "between sentinels in the four descriptive slots (option help, subcommand about, possible-value help, positional help - written by zsh and nushell only) of a small command; "
                 "all six real generators are run; the bash script must be byte-identical to the one for innocuous text; for the other five the "
                 "emitted literal is extracted and compared with the transcribed escaping (Quote.tla), and the shell's lexer automaton "
                 "(stage 1 quoting, stage 2 for fish `complete -a` and zsh _arguments specs) is run over it. "
